@@ -78,10 +78,11 @@ def r3_never_widens(ctx):
     _, entries, chain = _loader_chain(corpus)
     for f in entries:
         cfg = cfg_of(f.node)
-        tag_ifs = [n for n in walk_local(f.node) if isinstance(n, ast.If) and _is_tag_guard(n.test)]
+        from .guards import guard_edges
+
+        _skip, g, _found = guard_edges(f.node, kinds=('tag',))
         for c in self_calls(f.node, {'_download_snapshot_threadsafe', '_get_cached'}):
             st = enclosing_stmt(c)
-            g = [x for n in tag_ifs for x in cfg.nodes_of(n, 'false')]
             ctx.check(
                 bool(g) and all(cfg.set_dominates(g, x) for x in cfg.nodes_of(st, 'stmt')),
                 'C18.R3',
